@@ -235,4 +235,146 @@ theorem wildcard_spelt_roundtrip (mn mx : Version) (hwf : (⟨some mn, some mx, 
       rw [VRange.allowsHi_excl _ p (wE e (b0 :: bs)) (wE e (b0 :: bs)) hp rfl hA' rfl,
         VRange.allowsHi_excl _ p mx A hp rfl hAm rfl, kA A hAm, hE]
 
+/-! ### unions spelt `!=X.*` -/
+
+theorem wildcardCandidate_facts_inv (mn mx : Version) (h : isWildcardCandidate mn mx true = true)
+    (hnp : mx.isPostrelease = false) :
+    mn.epoch = mx.epoch ∧ mn.isPrerelease = false ∧ mx.isPrerelease = false ∧ mn.isPostrelease = false ∧
+    Version.eqv mn.firstDevrelease mn = true ∧ (mx.isDevrelease = true → Version.eqv mx.firstDevrelease mx = true) ∧
+    ∃ l, (stripZeros mn.release).getLast? = some l ∧ l ≠ 0 ∧
+      stripZeros mx.release = stripZeros ((stripZeros mn.release).dropLast ++ [l - 1]) := by
+  unfold isWildcardCandidate at h
+  by_cases hg : (mn.epoch != mx.epoch || mn.isLocal || mx.isLocal || mn.isPrerelease || mx.isPrerelease
+      || (mn.isPostrelease != mx.isPostrelease) || !(Version.eqv mn.firstDevrelease mn)
+      || (mx.isDevrelease && !(Version.eqv mx.firstDevrelease mx))) = true
+  · rw [if_pos hg] at h; cases h
+  · rw [if_neg hg] at h
+    simp only [Bool.or_eq_true, not_or, Bool.not_eq_true, bne_eq_false_iff_eq, Bool.and_eq_false_iff,
+      Bool.not_eq_false'] at hg
+    obtain ⟨⟨⟨⟨⟨⟨⟨g1, g2⟩, g3⟩, g4⟩, g5⟩, g6⟩, g7⟩, g8⟩ := hg
+    have g6' : mn.isPostrelease = false := by rw [g6]; exact hnp
+    simp only [if_true, hnp, Bool.false_eq_true, if_false] at h
+    generalize hP : stripZeros mn.release = P at h ⊢
+    by_cases hPe : P.isEmpty = true
+    · simp [hPe] at h
+    · simp only [hPe, Bool.false_eq_true, if_false] at h
+      generalize hpf0 : mx.release ++ zeros (P.length - mx.release.length) = pf0 at h
+      by_cases hex : (!(pf0.drop P.length).all (· == 0)) = true
+      · simp [hex] at h
+      · simp only [hex, Bool.false_eq_true, if_false, Bool.and_eq_true, beq_iff_eq] at h
+        obtain ⟨hd, hl⟩ := h
+        simp only [Bool.not_eq_true', Bool.not_eq_false, List.all_eq_true, beq_iff_eq] at hex
+        have hex' : ∀ x ∈ pf0.drop P.length, x = 0 := by
+          intro x hx; have := hex x hx; simpa using this
+        cases hpl : (pf0.take P.length).getLast? with
+        | none => rw [hpl] at hl; simp at hl
+        | some a =>
+          cases hPl : P.getLast? with
+          | none => rw [hpl, hPl] at hl; simp at hl
+          | some l =>
+            rw [hpl, hPl] at hl
+            simp only [beq_iff_eq] at hl
+            have hl0 : l ≠ 0 := stripZeros_last_ne_zero mn.release l (by rw [hP]; exact hPl)
+            refine ⟨g1, g4, g5, g6', by simpa using g7, ?_, l, rfl, hl0, ?_⟩
+            · intro hdv
+              rcases g8 with h8 | h8
+              · rw [hdv] at h8; cases h8
+              · exact h8
+            · have e1 : stripZeros mx.release = stripZeros pf0 := by
+                rw [← hpf0, zeros, stripZeros_append_replicate]
+              have e2 : stripZeros pf0 = stripZeros (pf0.take P.length) := stripZeros_take pf0 P.length hex'
+              have e3 : pf0.take P.length = P.dropLast ++ [l - 1] := by
+                have := dropLast_append_last (pf0.take P.length) a hpl
+                rw [← this, hd]
+                congr 2
+                omega
+              rw [e1, e2, e3]
+
+/-- **any two-member union the printer spells `!=X.*` is printed, read back, and the re-read union admits the same
+versions on EVERY probe** -/
+theorem wildcard_spelt_union_roundtrip (omax tmin : Version) (ho : omax.wf = true) (ht : tmin.wf = true)
+    (hlt : vk omax < vk tmin) (hw : isWildcardCandidate tmin omax true = true) (hnp : omax.isPostrelease = false) :
+    ∃ s c', (VC.union [.rng ⟨none, some omax, false, false⟩, .rng ⟨some tmin, none, true, false⟩]).toStr = .ok s ∧
+      VParser.parseConstraint s = .ok c' ∧
+      ∀ p, p.wf = true →
+        c'.allows p = (VC.union [.rng ⟨none, some omax, false, false⟩, .rng ⟨some tmin, none, true, false⟩]).allows p := by
+  obtain ⟨g1, g4, g5, g6, g7, g8, l, hPl, hl0, hrel⟩ := wildcardCandidate_facts_inv tmin omax hw hnp
+  generalize hP : stripZeros tmin.release = P at hPl hrel
+  have hBne : P.dropLast ++ [l - 1] ≠ [] := by simp
+  obtain ⟨b0, bs, hB⟩ := List.exists_cons_of_ne_nil hBne
+  have hPeq : P.dropLast ++ [l] = P := dropLast_append_last P l hPl
+  have hinc : incrLast (b0 :: bs) = P := by
+    rw [← hB, incrLast_append_singleton]
+    have : l - 1 + 1 = l := by omega
+    rw [this, hPeq]
+  let e := tmin.epoch
+  have hstr : singleWildcardRangeString omax tmin = .ok (String.ofList (wildChars e b0 bs)) := by
+    unfold singleWildcardRangeString
+    simp only [hnp, Bool.false_eq_true, if_false, hP, hPl]
+    have hz : (l == 0) = false := by simpa using hl0
+    simp only [hz, Bool.false_eq_true, if_false, hB]
+    congr 1
+    apply str_eq_of_toList
+    have hrt : (joinWith "." (natToString b0 :: bs.map natToString)).toList = relChars b0 bs := joinWith_dot_toList b0 bs
+    by_cases he : tmin.epoch = 0
+    · simp [wildChars, epochChars, e, he, hrt]
+    · simp [wildChars, epochChars, e, he, hrt, dg]
+  have hinv := inverted_two_sided omax tmin hlt
+  have hprint : (VC.union [.rng ⟨none, some omax, false, false⟩, .rng ⟨some tmin, none, true, false⟩]).toStr =
+      .ok (String.ofList ('!' :: '=' :: (baseChars e b0 bs ++ dotStar))) := by
+    simp only [VC.toStr, VC.excludedSingleVersion, hinv, VC.excludedWildcard, RC.max, RC.min, RC.imax, RC.imin, hw, hstr,
+      Option.isSome_some, Option.isSome_none, if_true, Bool.false_or, Bool.not_true, Bool.false_eq_true, if_false,
+      bind, Except.bind, pure, Except.pure]
+    congr 1
+    exact str_eq_of_toList (by simp [wildChars, baseChars, dotStar])
+  obtain ⟨hf, hbw⟩ := baseV_final e b0 bs
+  have hparse : VParser.parseConstraint (String.ofList ('!' :: '=' :: (baseChars e b0 bs ++ dotStar))) =
+      .ok (.union [.rng ⟨none, some (wD e (b0 :: bs)), false, false⟩, .rng ⟨some (wE e (b0 :: bs)), none, true, false⟩]) := by
+    have := parseConstraint_wild true e b0 bs
+    simp only [if_true] at this
+    rw [this, neStar_range _ hf hbw, wD_of_final _ hf, wE_of_final _ hf]
+    rfl
+  have hlt' : vk (wD e (b0 :: bs)) < vk (wE e (b0 :: bs)) := by
+    have := wildcard_ends_lt _ hf hbw
+    rwa [wD_of_final _ hf, wE_of_final _ hf] at this
+  have hinv' := inverted_two_sided _ _ hlt'
+  refine ⟨_, _, hprint, hparse, fun p hp => ?_⟩
+  simp only [VC.allows, VC.excludedSingleVersion, hinv, hinv', bind, Except.bind, pure, Except.pure, List.any_cons,
+    List.any_nil, Bool.or_false, RC.allows]
+  congr 1
+  -- member by member
+  have hE : wE e (b0 :: bs) = wD e P := by
+    show mk' e (relNext (b0 :: bs)) none none (some ⟨.dev, 0⟩) none = _
+    rw [relNext_eq_incrLast _ (by simp), hinc]; rfl
+  have kT : vk tmin = vk (wE e (b0 :: bs)) := by
+    rw [vk_eq_wD tmin g4 g6 g7, hE]
+    exact vk_wD_congr e _ _ (by rw [← hP, stripZeros_idem])
+  have kO : vk omax.firstDevrelease = vk (wD e (b0 :: bs)) := by
+    rw [firstDev_eq_wD omax g5 hnp, ← g1]
+    exact vk_wD_congr e _ _ (by rw [← hB]; exact hrel)
+  have hA := VRange.allowedMax_eq_of_lt (r := ⟨none, some omax, false, false⟩) (M := omax) rfl
+    (by intro m hm; cases hm)
+  simp only [Bool.false_or] at hA
+  have hA' : (⟨none, some (wD e (b0 :: bs)), false, false⟩ : VRange).allowedMax = some (wD e (b0 :: bs)) := by
+    simp [VRange.allowedMax, wD, mk', isUnstable, isDevrelease]
+  have kA : vk (if omax.isUnstable = true then omax else omax.firstDevrelease) = vk (wD e (b0 :: bs)) := by
+    by_cases hu : omax.isUnstable = true
+    · simp only [hu, if_true]
+      have hdev : omax.isDevrelease = true := by simpa [isUnstable, g5] using hu
+      rw [← kO]; exact ((eqv_iff _ _).1 (g8 hdev)).symm
+    · simp only [hu, Bool.false_eq_true, if_false]; exact kO
+  have m1 : (⟨none, some (wD e (b0 :: bs)), false, false⟩ : VRange).allows p =
+      (⟨none, some omax, false, false⟩ : VRange).allows p := by
+    unfold VRange.allows
+    congr 1
+    apply bool_eq_of_iff
+    rw [VRange.allowsHi_excl _ p _ _ hp rfl hA' rfl, VRange.allowsHi_excl _ p omax _ hp rfl hA rfl, kA]
+  have m2 : (⟨some (wE e (b0 :: bs)), none, true, false⟩ : VRange).allows p =
+      (⟨some tmin, none, true, false⟩ : VRange).allows p := by
+    unfold VRange.allows
+    congr 1
+    apply bool_eq_of_iff
+    rw [VRange.allowsLo_incl _ p _ hp rfl rfl, VRange.allowsLo_incl _ p tmin hp rfl rfl, kT]
+  rw [m1, m2]
+
 end Poetry
